@@ -34,3 +34,60 @@ pub fn all() -> Vec<Box<dyn Prop>> {
         Box::new(c17::C17),
     ]
 }
+
+use crate::desc::*;
+use crate::util::Rng;
+
+/// Cross a scenario with environment features its own generator does not vary: XOR obfuscation, index
+/// records and keys the loader must ignore, stale files in the dump folder, `--verify` on runs that start
+/// above the first block. All of these are neutral on a tree where the properties hold (the oracles
+/// select a run's own files and compare with the model); they exist to catch *interactions*
+/// (range + verify, obfuscation + reopen, competitor records + file lifetime, …).
+pub fn dress(scn: &mut Scenario, rng: &mut Rng, consistent_chain: bool) {
+    if rng.chance(1, 6) {
+        for l in scn.layouts.iter_mut() {
+            if l.xor_key.is_none() {
+                let n = *rng.pick(&[8usize, 8, 8, 1, 5, 32]);
+                l.xor_key = Some(Bytes(rng.bytes(n)));
+            }
+        }
+    }
+    if scn.chain.len() >= 2 && scn.chain.len() <= 60 && scn.extras.is_empty() && rng.chance(1, 4) {
+        c04::add_ignored_competitors(scn, rng);
+    }
+    if scn.index.extra_keys.is_empty() && rng.chance(1, 4) {
+        let mut t = vec![b't'];
+        t.extend(rng.bytes(32));
+        scn.index.extra_keys = vec![
+            (Bytes(t), Bytes(rng.bytes_range(3, 12))),
+            (Bytes(vec![b'l']), Bytes(vec![1])),
+            (Bytes(b"Ftxindex".to_vec()), Bytes(vec![b'1'])),
+            (Bytes(vec![b'f', 0]), Bytes(rng.bytes_range(4, 20))),
+        ];
+    }
+    if scn.dump_pre.is_empty() && rng.chance(1, 5) {
+        for st in ["blocks", "transactions", "tx_in", "tx_out", "unspent", "balances"] {
+            if rng.coin() {
+                scn.dump_pre.push(PreFile {
+                    name: format!("{}.csv.tmp", st),
+                    bytes: Bytes(vec![b'#'; rng.usize(1, 300_000)]),
+                });
+            }
+        }
+        scn.dump_pre.push(PreFile {
+            name: "blocks-0-424242.csv".into(),
+            bytes: Bytes(b"an older result\n".to_vec()),
+        });
+        scn.dump_pre.push(PreFile {
+            name: "README".into(),
+            bytes: Bytes(b"unrelated".to_vec()),
+        });
+    }
+    if consistent_chain {
+        for r in scn.runs.iter_mut() {
+            if !r.verify && r.start.map(|s| s >= scn.base_height + 1).unwrap_or(false) && rng.chance(1, 3) {
+                r.verify = true;
+            }
+        }
+    }
+}
